@@ -41,10 +41,11 @@ class Table(dict):
         raise NotImplementedError()
 
     def get(self, x):
-        v = self._df.get(x)
+        v = self.get_dataframe().get(x)
         return KLONG_UNDEFINED if v is None else v.values
 
     def set(self, x, y):
+        self.commit()
         self._df[x] = y
         self.columns = list(self._df.columns)
 
